@@ -249,7 +249,7 @@ func (p *HTTPProxy) ServeHTTP(w http.ResponseWriter, r *http.Request) {
 	}
 
 	start := timeNow()
-	rw := &responseWriter{w: w}
+	rw := &responseWriter{w: w, hdr: w.Header().Clone()}
 	h.ServeHTTP(rw, r)
 	end := timeNow()
 	dur := end.Sub(start)
@@ -316,6 +316,29 @@ type responseWriter struct {
 	w    http.ResponseWriter
 	code int
 	size int
+
+	// hdr holds the headers fabio itself has added to the response
+	// before the handler runs, e.g. Strict-Transport-Security.
+	// httputil.ReverseProxy clears the header map after it has relayed
+	// an informational (1xx) response of the upstream. The headers are
+	// put back before the header of the final response is written.
+	hdr   http.Header
+	final bool
+}
+
+// restoreHeaders puts the headers which fabio has added back into the
+// header map if they are no longer there.
+func (rw *responseWriter) restoreHeaders() {
+	if rw.final {
+		return
+	}
+	rw.final = true
+	h := rw.w.Header()
+	for k, v := range rw.hdr {
+		if _, ok := h[k]; !ok {
+			h[k] = v
+		}
+	}
 }
 
 func (rw *responseWriter) Header() http.Header {
@@ -323,12 +346,16 @@ func (rw *responseWriter) Header() http.Header {
 }
 
 func (rw *responseWriter) Write(b []byte) (int, error) {
+	rw.restoreHeaders()
 	n, err := rw.w.Write(b)
 	rw.size += n
 	return n, err
 }
 
 func (rw *responseWriter) WriteHeader(statusCode int) {
+	if statusCode >= 200 {
+		rw.restoreHeaders()
+	}
 	rw.w.WriteHeader(statusCode)
 	rw.code = statusCode
 }
